@@ -71,6 +71,22 @@ def historyCmd (handler : Bool) (maxLimit : Int) (b : Broker) (req : HistReq) (n
   else if req.channel = "" then (b, .disconnect discBadRequest)
   else nodeHistory b req.channel (effFilter maxLimit req) now
 
+/-- the single-flight key of `Node.historySingleFlight`, as the tuple of the components the code
+writes into the key string: channel, `Since` (offset and epoch, only when set), limit
+(**unconditionally**), reverse, meta TTL.  (`props/C43/check.py` pins this shape against the
+source of `historySingleFlight`; the string encoding itself is not modelled.) -/
+structure HistoryKey where
+  channel : String
+  since : Option (Nat × Nat)
+  limit : Int
+  reverse : Bool
+  metaTTL : Nat
+deriving Repr, DecidableEq
+
+def historyKey (ch : String) (f : Filter) (metaTTL : Nat) : HistoryKey :=
+  { channel := ch, since := f.since.map fun p => (p.offset, p.epoch), limit := f.limit,
+    reverse := f.reverse, metaTTL := metaTTL }
+
 /-! ### presence -/
 
 structure Info where
